@@ -586,6 +586,8 @@ func (a *Analyzer) Feed(r *ev.Rec) {
 		if r.Kind == "no-election" {
 			a.find("C20", "foreign-peer-suppresses-elections", "", r.Q, "cluster %d: the leader %d is gone for 40 heartbeat timeouts, but the followers elect nobody while a node of another cluster with the leader's node id keeps dialling them (every attempt is refused at the identity handshake)", r.Cid, r.Nid)
 		}
+	case "wait-abandoned":
+		a.stat("waits-abandoned-by-the-harness")
 	case "after-failed-transfer":
 		a.stat("after-failed-transfer:" + r.Kind)
 		if r.Kind == "unresponsive" {
